@@ -1047,7 +1047,7 @@ func (m *Machine) RunJob(job Job) (res JobResult) {
 		x.MaxEnum = 64
 	}
 	if x.T2Timeout == 0 {
-		x.T2Timeout = 60
+		x.T2Timeout = 150 // wall-clock cap per obligation; the unchanged tree's obligations close in < 40 s on idle cores, the margin is for a loaded machine
 	}
 	if x.MaxCandidates == 0 {
 		x.MaxCandidates = 8
